@@ -525,6 +525,18 @@ class Interp:
             if key not in self.const_pool:
                 self.const_pool[key] = Enum(v["variant"], ()) if "variant" in v else Int(bv.const(int(v["ref_int"]), v["bits"]))
             return Ref(key, ())
+        if "val" in v and isinstance(v["val"], dict):
+            def conv0(x):
+                if "int" in x:
+                    return Int(bv.const(int(x["int"]), x["bits"]))
+                if "variant" in x:
+                    return Enum(x["variant"], ())
+                if "fields" in x:
+                    return Agg([conv0(y) for y in x["fields"]])
+                if "elems" in x:
+                    return Agg([conv0(y) for y in x["elems"]])
+                return Opaque("const")
+            return conv0(v["val"])
         if "ref_val" in v and "ref_array" not in v and "ref_struct" not in v and "ref_int" not in v:
             key = ("const", "val", json.dumps(v["ref_val"], sort_keys=True))
             if key not in self.const_pool:
